@@ -65,6 +65,9 @@ pub struct Blk {
     /// additionally hand in the first `bulk` bulk transfers of the universe
     #[serde(default)]
     pub bulk: u32,
+    /// deviation: the relayer fails to read the events of this DA height (0 = no failure)
+    #[serde(default)]
+    pub rfail: u8,
 }
 
 #[derive(Clone, Default)]
@@ -204,7 +207,9 @@ impl Subject for ExecSubject {
     }
 
     fn label(&self, op: &Blk) -> String {
-        if op.bulk > 0 {
+        if op.rfail > 0 {
+            format!("relayer-read-fails-at-{}", op.rfail)
+        } else if op.bulk > 0 {
             format!("bulk{}", op.bulk)
         } else if op.txs.is_empty() {
             "empty".to_string()
@@ -238,6 +243,10 @@ impl Subject for ExecSubject {
         out
     }
 
+    fn deviation(&self, op: &Blk) -> u32 {
+        (op.rfail != 0) as u32
+    }
+
     fn interesting(&self, _op: &Blk, obs: &str) -> bool {
         !obs.starts_with("produce-err") && !obs.contains("txs=[]")
     }
@@ -249,7 +258,7 @@ impl Subject for ExecSubject {
         let header = next_header(&t, op.da as u64);
         let txs = self.txs_of(op);
         let cb = self.coinbase(op.cb);
-        let producer = executor_with(u, db.clone(), self.utxo_validation);
+        let producer = executor_full(u, db.clone(), self.utxo_validation, op.rfail as u64);
         let (res, changes) = match produce(u, &producer, header, txs.clone(), op.gp, cb, op.src) {
             Ok(x) => x,
             Err(e) => {
@@ -265,6 +274,10 @@ impl Subject for ExecSubject {
             if failed(s) {
                 self.fact("status:failed");
             }
+        }
+        if op.src == SRC_CHECKED && t.cp_version > 0 && res.skipped_transactions.iter().any(|(_, e)| matches!(e, ExecutorError::InvalidTransaction(_))) {
+            // a transaction pre-checked under the old parameters was re-checked under the upgraded ones and refused
+            self.fact("c01:rechecked-after-upgrade");
         }
         let cl = change_list(&changes);
 
@@ -312,9 +325,9 @@ impl Subject for ExecSubject {
 impl ExecSubject {
     fn c01(&self, w: &World, res: &ExecutionResult, cl: &ChangeList) -> Result<(), Violation> {
         let u = &self.u;
-        let v1 = executor(u, w.db());
+        let v1 = executor_with(u, w.db(), self.utxo_validation);
         let r1 = validate(&v1, &res.block);
-        let v2 = executor(u, w.db());
+        let v2 = executor_with(u, w.db(), self.utxo_validation);
         let r2 = validate(&v2, &res.block);
         let (val, vch) = match &r1 {
             Ok(x) => x,
@@ -579,7 +592,7 @@ impl ExecSubject {
         // prefix productions P_0 .. P_n on the same parent (P_n is the block itself)
         let mut prefix: Vec<(ExecutionResult, ChangeList)> = vec![];
         for i in 0..txs.len() {
-            let ex = executor(u, w.db());
+            let ex = executor_full(u, w.db(), self.utxo_validation, op.rfail as u64);
             let (r, c) = produce(u, &ex, next_header(t, op.da as u64), txs[..i].to_vec(), op.gp, cb, op.src)
                 .map_err(|e| viol("prefix-production-failed", format!("producing the prefix of length {i} failed: {e:?}")))?;
             prefix.push((r, change_list(&c)));
@@ -714,8 +727,18 @@ impl ExecSubject {
                     _ => {}
                 }
             }
-            if has_change && inp != outp + fee as u128 {
-                return Err(viol("reverted-tx-fee-accounting", format!("reverted transaction: base inputs {inp} != outputs {outp} + fee {fee}")));
+            // The VM computes the change with the predicate gas fields zeroed (`prepare_sign` at VM
+            // initialisation) while `total_fee` counts the predicate gas: for predicate inputs the payer is
+            // charged up to predicate_gas x price less than `total_fee`. That is fuel-vm behaviour (trusted
+            // base) and not part of the statement, so it is tolerated and only recorded.
+            let pred_gas: u128 = executed_tx.inputs().iter().filter_map(|i| i.predicate_gas_used()).map(|g| g as u128).sum();
+            let slack = pred_gas * price as u128 + if pred_gas > 0 { 1 } else { 0 };
+            let charged = inp.saturating_sub(outp);
+            if has_change && (inp < outp || charged > fee as u128 || charged + slack < fee as u128) {
+                return Err(viol("reverted-tx-fee-accounting", format!("reverted transaction: base inputs {inp} != outputs {outp} + fee {fee} (predicate gas {pred_gas})")));
+            }
+            if has_change && charged != fee as u128 {
+                self.fact("info:predicate-gas-counted-in-fee-but-not-deducted-from-change");
             }
             self.fact("c04:revert-checked");
         }
@@ -852,7 +875,7 @@ impl ExecSubject {
         }
         for (what, txs) in mutants {
             let blk = rebuild_block(block, txs, &res.tx_status).map_err(|e| viol("craft-failed", e))?;
-            let ex = executor(u, w.db());
+            let ex = executor_with(u, w.db(), self.utxo_validation);
             match validate(&ex, &blk) {
                 Err(e) => self.fact(format!("c03:mutant-rejected:{what}:{}", err_class(&e))),
                 Ok((val, _)) => {
